@@ -24,7 +24,9 @@ func genParams(rt *rapid.T, seedTag string) sim.Params {
 	p := hist.GenParams(rt, seedTag)
 	u := hist.NewU(rt)
 	p.OnsBasePrice = []string{"1000000000000000000", "1000000000000000000", "0", "7"}[u.N(4, "c20-base")]
-	p.OnsPerBlock = []string{"100000000000000", "100000000000000", "3", "1000000000000000000"}[u.N(4, "c20-per")]
+	// per-block prices: the default, tiny ones, 1 OLT, and prices that no longer fit an int64 (10 OLT, 20 OLT, 2^64 base units)
+	p.OnsPerBlock = []string{"100000000000000", "100000000000000", "100000000000000", "3", "3", "1000000000000000000", "1000000000000000000",
+		"10000000000000000000", "20000000000000000000", "18446744073709551616"}[u.N(10, "c20-per")]
 	p.PropFundingDL = 3
 	p.PropVotingDL = 6
 	p.PropPassPct = 51
@@ -315,6 +317,7 @@ func (f *fgen) govStep() ([]txgen.Tx, bool) {
 			"onsOptions.perBlockFees:" + mul(o.PerBlock, 2).String(),
 			"onsOptions.baseDomainPrice:" + new(big.Int).Add(o.Base, big.NewInt(int64(1+f.u.N(1000, "gv-dbase")))).String(),
 			"onsOptions.baseDomainPrice:" + mul(o.PerBlock, 3).String(),
+			"onsOptions.perBlockFees:" + []string{"10000000000000000000", "20000000000000000000", "18446744073709551616"}[f.u.N(3, "gv-big")],
 		}
 		f.propCfg = cfgs[f.u.N(len(cfgs), "gv-cfg")]
 		f.propID = txgen.ProposalID(fmt.Sprintf("c20-%d-%s", f.next(), w.P.Seed))
